@@ -203,19 +203,32 @@ Example C11_source_example :
                  {| m_job := 2; m_tgt := 1; m_rid := 5%Z; m_fac := Task |} ]) = [2; 0].
 Proof. vm_compute. repeat split; reflexivity. Qed.
 
-(* _workers_sort, regenerated statement by statement (Gen/FarmGen.v workers_sort;
-   None = the python raises).  PARTIAL: equality with the model is proved for
-   every pool of at most 6 workers on at most 3 hosts (ids = positions), by
-   evaluation inside Coq; missing for all pools: the loop invariant relating the
-   per-host lists of the source to the filters of the model (Proofs/FarmGenEq.v). *)
-Theorem C11_workers_sort_is_source_partial : forall hs,
+(* _workers_sort, regenerated statement by statement (Gen/FarmGen.v workers_sort:
+   the dictionary of per-host lists over the FIXED sorted keys seen at entry, the
+   scan for `longest` over all keys, pop(0) from the aliased list; None = the
+   python raises IndexError or the while loop does not end).  For EVERY pool with
+   one registration per connection it returns, without raising, what the model's
+   workers_sort returns (Proofs/FarmSortEq.v: loop invariant
+   wg = [(k, of_host w k) | k <- keys]; the scan over all keys = pick_host over
+   the hosts that still have a worker).  NoDup is needed (the model removes the
+   chosen worker by id): FarmSortEq.workers_sort_gen_eq_needs_nodup. *)
+From DV Require Proofs.FarmSortEq.
+Theorem C11_workers_sort_is_source : forall w, NoDup (map fst w) ->
+  FarmGen.workers_sort w = Some (workers_sort w).
+Proof. exact FarmSortEq.workers_sort_gen_eq. Qed.
+Print Assumptions C11_workers_sort_is_source.
+
+Example C11_workers_sort_example :
+  NoDup (map fst (FarmGenEq.pool [1; 1; 0; 2; 1])) /\
+  FarmGen.workers_sort (FarmGenEq.pool [1; 1; 0; 2; 1])
+    = Some [(0, 1); (1, 1); (2, 0); (4, 1); (3, 2)] /\
+  workers_sort (FarmGenEq.pool [1; 1; 0; 2; 1]) = [(0, 1); (1, 1); (2, 0); (4, 1); (3, 2)].
+Proof. split; [cbn; repeat constructor; cbn; intuition discriminate|split; vm_compute; reflexivity]. Qed.
+
+(* the bounded statement of the previous round (every pool of at most 6 workers
+   on 3 hosts, decided by evaluation inside Coq) is kept as a cross-check of the
+   generated text that does not depend on the invariant proof *)
+Example C11_workers_sort_bounded : forall hs,
   length hs <= 6 -> Forall (fun h => h < 3) hs ->
   FarmGen.workers_sort (FarmGenEq.pool hs) = Some (workers_sort (FarmGenEq.pool hs)).
 Proof. exact FarmGenEq.workers_sort_gen_eq_partial. Qed.
-Print Assumptions C11_workers_sort_is_source_partial.
-
-Example C11_workers_sort_example :
-  (length [1; 1; 0; 2; 1] <= 6 /\ Forall (fun h => h < 3) [1; 1; 0; 2; 1]) /\
-  FarmGen.workers_sort (FarmGenEq.pool [1; 1; 0; 2; 1])
-    = Some [(0, 1); (1, 1); (2, 0); (4, 1); (3, 2)].
-Proof. split; [split; [cbn; repeat constructor|repeat constructor]|vm_compute; reflexivity]. Qed.
